@@ -5,6 +5,7 @@ package c10
 
 import (
 	"encoding/json"
+	"errors"
 	"fmt"
 	"sort"
 	"strings"
@@ -322,6 +323,24 @@ func (w *world) send(s *state, plain bool, lbl string, req *types.RotateNodeCred
 		sort.Strings(d)
 		return strings.Join(d, ", ")
 	}
+	if !honoured && auth != nil && innerValid && !innerFresh && !strings.HasSuffix(lbl, "|faulted") {
+		// an authenticated request that is refused only because its inner key is
+		// already registered (a replay, an existing key): a storage operation
+		// failing during the call must not turn the refusal into an acceptance
+		for pos := 1; pos <= ns.st.Calls+1 && pos <= 12; pos++ {
+			fs := s.clone()
+			fs.st.Faults = map[int]error{pos: errors.New("injected storage failure")}
+			var fstorage nodeenrollment.Storage = fs.st
+			if plain {
+				fstorage = harness.Plain{S: fs.st}
+			}
+			fresp, ferr := rotation.RotateNodeCredentials(harness.Ctx, fstorage, req, callerOpts...)
+			if ferr == nil && fresp != nil && len(fresp.EncryptedFetchNodeCredentialsResponse) > 0 {
+				return ns, "honoured-unauthenticated:registered-inner-key:under-storage-fault", fmt.Sprintf("%s is refused, but with storage operation %d of the call failing it was honoured (the already registered key's record was replaced)", desc, pos)
+			}
+			r.Branch("refusal-stable-under-fault")
+		}
+	}
 	if !honoured {
 		if c := changed(); c != "" {
 			return ns, "refused-but-storage-changed", fmt.Sprintf("%s was refused (%v) but storage changed: %s", desc, err, c)
@@ -540,7 +559,7 @@ var inits = []initCfg{
 }
 
 func run(c *engine.Ctx, r *engine.Report) {
-	r.Need("honoured:key-id", "honoured:node-id", "honoured:previous-key", "refused", "replay-refused")
+	r.Need("honoured:key-id", "honoured:node-id", "honoured:previous-key", "refused", "replay-refused", "refusal-stable-under-fault")
 	for i, ic := range inits {
 		if c.Mine(i) {
 			explore(c, r, ic)
@@ -577,7 +596,7 @@ func init() {
 	engine.Register(&engine.CheckDef{
 		ID:    "C10",
 		Level: "model_checking",
-		Rule: "BFS (quick depth 3, thorough 4) from 11 initial stores (previous key recorded or not; the superseded record still stored before/after its successor; a second record under the node id before/after the first; NodeIdLoader or plain storage) over rotation requests {encrypting key: current of K1/K1b/K2/new key, recorded previous pair, unrelated} x {identification: key id of K1/K2/unknown/new, node id X, unknown node id} x {inner: fresh key, registered K1/K2, token-sized nonce, expired window, wrong signer, not a request}, the honest shapes again with a caller-supplied WithState option, replays of every honoured payload and removal of old records; " +
+		Rule: "BFS (quick depth 3, thorough 4) from 11 initial stores (previous key recorded or not; the superseded record still stored before/after its successor; a second record under the node id before/after the first; NodeIdLoader or plain storage) over rotation requests {encrypting key: current of K1/K1b/K2/new key, recorded previous pair, unrelated} x {identification: key id of K1/K2/unknown/new, node id X, unknown node id} x {inner: fresh key, registered K1/K2, token-sized nonce, expired window, wrong signer, not a request}, the honest shapes again with a caller-supplied WithState option, replays of every honoured payload and removal of old records; every request refused only for an already registered inner key is retried with each single storage operation failing and must stay refused; " +
 			"distinct_nontrivial = canonical states reached (records with node id / previous key / state, and the set of honoured payloads)",
 		Assumptions: []string{"removing the record a rotation created and then replaying that rotation is outside the alphabet (the quantifier lists replay and repeated rotation, not revocation)", "forged = encrypted under another pool key"},
 		Shards:      func(c *engine.Ctx) int { return 11 },
